@@ -21,25 +21,26 @@ EXTRA = {
     'C01': {'lentil/fourier.py': ['dft2', 'idft2', '_dft2_matrices', '_dft2_coords']},
     'C02': {'lentil/propagate.py': ['propagate_dft', '_dft_alpha', '_mask_shape', '_mask_shift'], 'lentil/fourier.py': ['dft2', '_dft2_matrices', '_dft2_coords'],
             'lentil/wavefront.py': ['Wavefront.field', 'Wavefront.intensity']},
-    'C03': {'lentil/plane.py': ['Plane.multiply', '_plane_slice', 'TiltInterface.multiply', 'Tilt.__init__', 'Plane.fit_tilt', 'Pupil.multiply'], 'lentil/util.py': ['boundary'],
+    'C03': {'lentil/extent.py': ['array_extent', 'intersect', 'intersection_slices', 'intersection_shift'], 'lentil/plane.py': ['Plane.shape', 'Plane.mask', 'Plane.multiply', '_plane_slice', 'TiltInterface.multiply', 'Tilt.__init__', 'Plane.fit_tilt', 'Pupil.multiply'], 'lentil/util.py': ['boundary'],
             'lentil/propagate.py': ['_dft_alpha', 'propagate_dft'], 'lentil/field.py': ['Field.__mul__', 'reduce', '_reduce', '_disjoint', '_merge', 'insert'],
             'lentil/fourier.py': ['dft2', '_dft2_matrices', '_dft2_coords'], 'lentil/wavefront.py': ['Wavefront.intensity', 'Wavefront.field', 'Wavefront.__mul__']},
     'C04': {'lentil/field.py': ['Field.__mul__', 'Field.shift'], 'lentil/plane.py': ['Plane.fit_tilt', 'Plane.ptt_vector', 'Tilt.shift', 'Tilt.__init__', 'TiltInterface.multiply', 'DispersiveTilt.shift']},
-    'C05': {'lentil/util.py': ['normalize_power'], 'lentil/propagate.py': ['_fft2', 'propagate_fft', 'propagate_dft'], 'lentil/fourier.py': ['dft2', '_dft2_matrices']},
+    'C05': {'lentil/plane.py': ['Plane.shape', 'Plane.multiply', 'Plane.mask', 'Plane.__init__'], 'lentil/wavefront.py': ['Wavefront.__init__', 'Wavefront.field', 'Wavefront.shape', 'Wavefront.intensity'],
+            'lentil/util.py': ['normalize_power'], 'lentil/propagate.py': ['_fft2', 'propagate_fft', 'propagate_dft'], 'lentil/fourier.py': ['dft2', '_dft2_matrices']},
     'C06': {'lentil/field.py': ['Field.__mul__', 'Field._mul_scalar', 'Field._mul_array', '_mul_broadcast', 'insert', 'merge', '_merge', '_merge_shape', '_merge_slices',
                                 '_merge_offset', 'boundary', 'overlap', 'reduce', '_reduce', '_disjoint']},
-    'C07': {'lentil/plane.py': ['Plane.multiply', '_mul_pixelscale', 'Pupil.multiply', 'Image.multiply', 'Plane.__init__', '_plane_slice', 'TiltInterface.multiply', 'Tilt.__init__'],
+    'C07': {'lentil/extent.py': ['array_extent', 'intersect', 'intersection_slices', 'intersection_shift'], 'lentil/plane.py': ['Plane.shape', 'Plane.mask', 'Plane.amplitude', 'Plane.opd', 'Plane.multiply', '_mul_pixelscale', 'Pupil.multiply', 'Image.multiply', 'Plane.__init__', '_plane_slice', 'TiltInterface.multiply', 'Tilt.__init__'],
             'lentil/helper.py': ['boundary_slice', 'slice_offset'], 'lentil/util.py': ['boundary'], 'lentil/field.py': ['Field.__mul__', 'insert', 'reduce', '_reduce', '_disjoint', '_merge'], 'lentil/wavefront.py': ['Wavefront.field', 'Wavefront.intensity', 'Wavefront.insert', 'Wavefront.__mul__']},
     'C08': {'lentil/plane.py': ['Image.multiply', 'TiltInterface.multiply', 'Plane.__init__', 'Plane.multiply'], 'lentil/ptype.py': ['ptype']},
     'C09': {'lentil/propagate.py': ['propagate_fft', '_fft_shape', '_fft2', 'scratch_shape', '_has_tilt'], 'lentil/util.py': ['pad']},
     'C11': {'lentil/zernike.py': ['zernike', 'R', 'zernike_index', 'zernike_coordinates'], 'lentil/util.py': ['centroid'], 'lentil/helper.py': ['mesh']},
     'C12': {'lentil/zernike.py': ['zernike_fit', 'zernike_remove', 'zernike_compose', 'zernike_basis']},
-    'C13': {'lentil/radiometry.py': ['Spectrum._ufunc', '_interp_common', '_sampling', '_intersect', 'Spectrum.sample', 'Spectrum.to', 'Spectrum.copy']},
-    'C14': {'lentil/radiometry.py': ['Blackbody.sample_vegamag', 'Unit', 'Spectrum.to', 'planck_radiance', 'planck_exitance', 'vegaflux', 'Blackbody.__init__', 'Blackbody.sample', 'Blackbody.vegamag']},
-    'C15': {'lentil/radiometry.py': ['_sampling', 'Spectrum.integrate', 'Spectrum.bin', 'Spectrum.crop', 'Spectrum.trim', 'Spectrum.pad', 'Spectrum.append', 'Spectrum.resample', 'Spectrum.ends', 'Spectrum.sample']},
-    'C16': {'lentil/detector.py': ['collect_charge', 'collect_charge_bayer', 'adc', 'qe_asarray', 'format_bayer_string'], 'lentil/radiometry.py': ['Spectrum.sample']},
-    'C17': {'lentil/plane.py': ['Plane.rescale', 'Plane.resample', 'Plane.copy'], 'lentil/util.py': ['rescale']},
-    'C18': {'lentil/detector.py': ['shot_noise', 'read_noise', 'dark_current', 'rule07_dark_current'], 'lentil/wfe.py': ['power_spectrum']},
+    'C13': {'lentil/radiometry.py': ['Spectrum.__init__', 'Spectrum.__mul__', 'Spectrum.__rmul__', 'Spectrum.__add__', 'Spectrum.__sub__', 'Spectrum.__truediv__', 'Spectrum.__pow__', 'Spectrum.wave', 'Spectrum.value', 'Spectrum._ufunc', '_interp_common', '_sampling', '_intersect', 'Spectrum.sample', 'Spectrum.to', 'Spectrum.copy']},
+    'C14': {'lentil/radiometry.py': ['Spectrum.copy', 'Spectrum.__init__', 'Spectrum.wave', 'Spectrum.value', 'Spectrum.waveunit', 'Spectrum.valueunit', 'Blackbody.sample_vegamag', 'Unit', 'Spectrum.to', 'planck_radiance', 'planck_exitance', 'vegaflux', 'Blackbody.__init__', 'Blackbody.sample', 'Blackbody.vegamag']},
+    'C15': {'lentil/radiometry.py': ['Spectrum.__init__', 'Spectrum.copy', 'Spectrum.wave', 'Spectrum.value', '_sampling', 'Spectrum.integrate', 'Spectrum.bin', 'Spectrum.crop', 'Spectrum.trim', 'Spectrum.pad', 'Spectrum.append', 'Spectrum.resample', 'Spectrum.ends', 'Spectrum.sample']},
+    'C16': {'lentil/radiometry.py': ['Spectrum.sample', 'Spectrum.to', 'Spectrum.copy', 'Spectrum.wave', 'Spectrum.value', 'Angstrom.to', 'Meter.to', 'Micron.to', 'Nanometer.to'], 'lentil/detector.py': ['collect_charge', 'collect_charge_bayer', 'adc', 'qe_asarray', 'format_bayer_string']},
+    'C17': {'lentil/plane.py': ['Plane.amplitude', 'Plane.opd', 'Plane.mask', 'Plane.pixelscale', 'Plane.__init__', 'Plane.rescale', 'Plane.resample', 'Plane.copy'], 'lentil/util.py': ['rescale']},
+    'C18': {'lentil/helper.py': ['gaussian2d'], 'lentil/detector.py': ['shot_noise', 'read_noise', 'dark_current', 'rule07_dark_current'], 'lentil/wfe.py': ['power_spectrum']},
     'C19': {'lentil/detector.py': ['pixel', 'pixelate'], 'lentil/convolvable.py': ['jitter', 'smear']},
     'C20': {'lentil/util.py': ['pad', 'subarray', 'boundary', 'rebin', 'centroid'], 'lentil/helper.py': ['mesh', 'boundary_slice', 'slice_offset'],
             'lentil/segmented.py': ['hex_segments', 'hex_ring', 'hex_to_rc']},
@@ -83,10 +84,17 @@ def functions_in(src):
         elif isinstance(node, ast.ClassDef):
             for m in node.body:
                 if isinstance(m, (ast.FunctionDef, ast.AsyncFunctionDef)):
-                    out[f'{node.name}.{m.name}'] = m           # a property setter overrides its getter here: both share the name; keep the last
+                    key = f'{node.name}.{m.name}'
+                    if key in out:                                 # property getter + setter (+ deleter) share the name: pin them together
+                        out[key] = (out[key] if isinstance(out[key], list) else [out[key]]) + [m]
+                    else:
+                        out[key] = m
     return out
 
-def digest(fn): return hashlib.sha256(normalised(fn).encode()).hexdigest()[:16]
+def digest(fn):
+    # `fn` may be a list of definitions sharing one qualified name (property getter + setter): hash them all
+    fns = fn if isinstance(fn, list) else [fn]
+    return hashlib.sha256('\n'.join(normalised(f) for f in fns).encode()).hexdigest()[:16]
 
 def class_shapes(src):
     """{class name: 'bases | sorted method names'} — a new override (e.g. Blackbody.to) changes the shape of its class"""
@@ -121,7 +129,8 @@ def derive():
                 try: src = subprocess.run(['git', '-C', os.environ.get('VERIF_REPO', '/repo'), 'show', f'{SNAPSHOT}:{path}'], capture_output=True, text=True, check=True).stdout
                 except Exception: continue
                 for name, fn in functions_in(src).items():
-                    if fn.lineno <= b and fn.end_lineno >= a: want.setdefault(path, set()).add(name)
+                    for f1 in (fn if isinstance(fn, list) else [fn]):
+                        if f1.lineno <= b and f1.end_lineno >= a: want.setdefault(path, set()).add(name)
         for path, names in EXTRA.get(p['id'], {}).items(): want.setdefault(path, set()).update(names)
         res[p['id']] = {k: sorted(v) for k, v in sorted(want.items())}
     return res
